@@ -99,6 +99,19 @@ Theorem weak_drop_effects :
   g_weak_drop = [ Branch [] [E Return]; E DecWeak; Branch [E TestWeakZero] [E Dealloc] ].
 Proof. reflexivity. Qed.
 
+(** the raw-pointer functions: [increment_strong_count] is one [Rc::clone] of a
+    handle that is never dropped (model: [AIncStrong] = [inc_strong]);
+    [decrement_strong_count] is exactly the drop of one handle (model:
+    [ADecStrong] pushes [FDropStrong]: the whole of [Rc::drop], trace included);
+    [into_raw] forgets the handle, [from_raw] rebuilds it from the data offset *)
+Theorem raw_pointer_effects :
+  g_increment_strong_count = [E ManuallyDropNew; E FromRaw; E CloneValue] /\
+  g_decrement_strong_count = [E DropFromRaw] /\
+  g_into_raw = [E AsPtr; E Forget] /\
+  g_from_raw = [E DataOffset; E FromPtr].
+Proof. repeat split; reflexivity. Qed.
+
+Print Assumptions raw_pointer_effects.
 Print Assumptions try_unwrap_effects.
 Print Assumptions make_mut_effects.
 Print Assumptions weak_drop_effects.
